@@ -10,6 +10,8 @@ store that overrides only the item protocol.  Every access funnels through the
 primitive methods below and cannot bypass counters, monitors or fault directives.
 """
 
+from collections.abc import MutableMapping
+
 from eth_hash.auto import keccak
 
 
@@ -227,6 +229,20 @@ class SimDictDB(SimDB, _DictBase):
     are never seen again — which is what happens to such stores in real use."""
 
 
+class SimMapDB(SimDB, MutableMapping):
+    """The same simulated store as a complete MutableMapping: get / update / items / values /
+    setdefault / popitem / clear / == all exist and all work through the monitored item
+    protocol — what a dict-like database adapter offers.  Library code that starts to call
+    those on the store it wraps is thereby visible to the monitors."""
+
+    __hash__ = None
+
+
+# per run: the minimal object (twice as likely), the dict subclass, the full mapping
+STORE_FLAVOURS = ["min", "min", "dict", "map"]
+
+
 def make_store(cfg, initial=None):
-    """Store flavour of a run: the minimal object (default) or the dict subclass."""
-    return (SimDictDB if (cfg or {}).get("store") == "dict" else SimDB)(initial)
+    """Store flavour of a run (cfg["store"]): minimal object, dict subclass or full mapping."""
+    flavour = (cfg or {}).get("store")
+    return (SimDictDB if flavour == "dict" else SimMapDB if flavour == "map" else SimDB)(initial)
